@@ -128,9 +128,20 @@ def observe(cfg, want):
         exps = set()
         ok = a.shape == b.shape
         if ok:
-            # entries that are pure rounding residue of a cancellation (relative to the largest entry) count as zero
-            a = np.where(np.abs(a) <= 1e-12 * max(np.abs(a).max(), 1e-300), 0.0, a)
-            b = np.where(np.abs(b) <= 1e-12 * max(np.abs(b).max(), 1e-300), 0.0, b)
+            # entries that are pure rounding residue of a cancellation count as zero.  The size of such a residue is
+            # set by the terms that cancel, not by what is left: for the advective outputs (whose entries are sums of
+            # +-u A/V contributions that cancel exactly for a divergence-free u) the yardstick is the largest entry
+            # of the central convection matrix (times the field magnitude for the TVD vector)
+            def yard(raw, arr):
+                m = float(np.abs(arr).max()) if arr.size else 0.0
+                if name in ("Mup", "Mconv", "divu", "tvd"):
+                    conv = float(np.abs(raw["Mconv"]).max()) if raw["Mconv"].size else 0.0
+                    if name == "tvd":
+                        conv *= max(float(np.abs(raw["ghost"]).max()), 1e-300)
+                    m = max(m, conv)
+                return max(m, 1e-300)
+            a = np.where(np.abs(a) <= 1e-12 * yard(raw1, a), 0.0, a)
+            b = np.where(np.abs(b) <= 1e-12 * yard(raw2, b), 0.0, b)
             nz = (a != 0) | (b != 0)
             for x, y in zip(a[nz].ravel(), b[nz].ravel()):
                 if x == 0 or y == 0 or not np.isfinite(x) or not np.isfinite(y) or (x > 0) != (y > 0):
